@@ -4,13 +4,13 @@ from collections import Counter
 from sim import ref
 from sim.chart import Cfg, swarm, gen_spec, HIST
 from sim.engine import Result, Abandon, fp
-from sim.semrun import Sim, standard_ops, legal_or_abandon, groups
+from sim.semrun import Sim, standard_ops, legal_or_abandon, groups, materialise
 from sim.checks import common
 
 ID = 'C06'
 LEVEL = 'exploration'
 BUDGET = {'quick': 20, 'thorough': 240}
-STREAM_ORDER = ['ops', 'guards', 'chart', 'cfg']
+STREAM_ORDER = ['ops', 'guards', 'mat', 'chart', 'cfg']
 RULE = (common.GEN + 'charts are forced to contain history states (shallow and deep, nested, inside orthogonal regions) and transitions '
         'towards them; history memory is recorded from the real pre-exit configuration every time a compound parent appears in the '
         'exited states; on every transition that targets a history state the re-activated sub-configuration is compared with that '
@@ -31,7 +31,7 @@ def run(ch, tier):
     cfg.history = True
     cfg.max_states = max(cfg.max_states, 6)
     sp = gen_spec(ch.s('chart'), cfg)
-    sim = Sim(sp)
+    sim = Sim(sp, statechart=materialise(sp, ch, res))
     cfp = fp(sp.fingerprint())
     exits = Counter()          # history state -> number of times its parent was exited
     distinct_mem = {}
